@@ -98,10 +98,16 @@ def pmap(modname, fname, items, nproc=None, chunksize=1):
         out = [_worker((modname, fname, it)) for it in items]
     else:
         import multiprocessing as mp
+        from concurrent.futures import ProcessPoolExecutor
+        from concurrent.futures.process import BrokenProcessPool
         ctx = mp.get_context("fork")
-        with ctx.Pool(nproc) as pool:
-            out = pool.map(_worker, [(modname, fname, it) for it in items],
-                           chunksize=chunksize)
+        # an executor (not mp.Pool): a worker that dies (killed, out of memory) breaks the pool
+        # with an exception instead of leaving map() waiting for ever
+        try:
+            with ProcessPoolExecutor(max_workers=nproc, mp_context=ctx) as pool:
+                out = list(pool.map(_worker, [(modname, fname, it) for it in items], chunksize=chunksize))
+        except BrokenProcessPool as e:
+            raise HarnessError("a worker process of %s.%s died (%s)" % (modname, fname, e))
     res = []
     errs = []
     for tag, val in out:
